@@ -1,4 +1,12 @@
 pub fn time_millis() -> i64 {
+    #[cfg(feature = "verif")]
+    {
+        // virtual clock: a harness-controlled offset on top of the wall clock
+        let offset = crate::verif::clock_offset_ms();
+        if offset != 0 {
+            return chrono::Utc::now().timestamp_millis() + offset;
+        }
+    }
     let time: chrono::DateTime<chrono::Utc> = chrono::Utc::now();
     time.timestamp_millis()
 }
